@@ -213,13 +213,23 @@ Definition check (c : sexp) : sexp :=
                       else if negb (Nat.eqb leak 0) then v_oracle_fail "goroutine-blocked-after-request" [of_nat leak]
                       else
                         (* ---- the model as an acceptor of the observed history ---- *)
-                        match accept true p init 0 tr with
+                        (* the code that exists ([current]); a history it rejects is tried against
+                           the proved variant that does not loop after a chained delivery *)
+                        let acc := match accept current p init 0 tr with
+                                   | inl s => (inl s, false)
+                                   | inr i => match accept (mkVariant true false) p init 0 tr with
+                                              | inl s => (inl s, true)
+                                              | inr _ => (inr i, false)
+                                              end
+                                   end in
+                        match fst acc with
                         | inr i =>
                             let lab := nth i tr LEnd in
                             v_mismatch "step-not-enabled-in-model" [of_nat i; SSym (label_name lab); label_arg lab]
                         | inl s =>
                             match st_phase s with
-                            | PEnded => v_ok (classes items tr m ++ sym_class l "gmp")
+                            | PEnded => v_ok (classes items tr m ++ sym_class l "gmp" ++ sym_class l "ws" ++
+                                              (if snd acc then ["variant-no-loop-after-chained"] else []))
                             | _ => v_mismatch "history-does-not-end" []
                             end
                         end
